@@ -218,3 +218,38 @@ def crosscheck_extraction(check, codec, lines, model_out):
         check.broken = list(check.broken) + ["extraction cross-check: %d of %d sampled cases differ between vm_compute and the extracted runner" % (bad, len(exprs))]
     check.coverage["extraction_crosscheck"] = {"sampled_cases_evaluated_in_coq": len(exprs), "differences": bad}
     return len(exprs)
+
+
+def crosscheck_v3(check, lines, model_out, limit=12):
+    """The same for the v3/crypto runner: `sign` and `localize` lines (short inputs) are evaluated inside Coq with the
+    Gallina MD5 / SHA-1 and compared with what the extracted runner printed."""
+    exprs, expect = [], []
+    for ln, mo in zip(lines, model_out):
+        if len(exprs) >= limit:
+            break
+        p = ln.split(" ")
+        if p[0] == "sign" and len(p[3]) <= 2 * 300:
+            exprs.append("match auth_new %s with Ok k => match as_key_type k (%s + 128) %s [] with Ok k' => "
+                         "match alg_sign k' %s %s with Ok m => Some m | _ => None end | _ => None end | _ => None end"
+                         % (p[1], p[1], zlist(p[2]), zlist(p[3]), p[4]))
+            expect.append("Some " + zlist(mo[3:]) if mo.startswith("OK ") else "None")
+        elif p[0] == "localize" and len(p[2]) <= 128:
+            exprs.append("match auth_new %s with Ok k => match alg_localize (ak_alg k) %s %s with Ok m => Some m | _ => None end | _ => None end"
+                         % (p[1], zlist(p[2]), zlist(p[3])))
+            expect.append("Some " + zlist(mo[3:]) if mo.startswith("OK ") else "None")
+    if not exprs:
+        return 0
+    got, out = vf.coq_eval("From GS Require Import Model.Base Model.Auth.", exprs)
+    if got is None:
+        check.broken = list(check.broken) + ["in-Coq evaluation of the v3 model failed: " + out[-300:]]
+        return 0
+    bad = 0
+    for e, g, w in zip(exprs, got, expect):
+        if g != w:
+            bad += 1
+            if bad <= 3:
+                check.log("extracted v3 runner and vm_compute differ on `%s`: vm_compute `%s` runner `%s`" % (e[:160], (g or "")[:120], w[:120]))
+    if bad:
+        check.broken = list(check.broken) + ["extraction cross-check (v3 runner): %d of %d sampled cases differ between vm_compute and the extracted runner" % (bad, len(exprs))]
+    check.coverage["extraction_crosscheck_v3"] = {"sampled_cases_evaluated_in_coq": len(exprs), "differences": bad}
+    return len(exprs)
